@@ -90,4 +90,25 @@ theorem prefix_placeholder_accepted :
 example : Eval.isReserved [110, 97, 109, 101] = true ∧ Eval.isReserved [78, 97, 109, 101] = true ∧ Eval.isReserved [78, 65, 77, 69] = true := by
   decide +kernel
 
+/-- a `:value` placeholder that the request does not supply is rejected: the condition is not evaluated (`464433d`) -/
+theorem unsupplied_value_rejected (expr : Bytes) (item : Item) (names : List (Bytes × Bytes)) (values : Item)
+    (p : Bytes) (hp : p ∈ Interp.valuePlaceholders expr) (hv : ahas p values = false) :
+    Interp.langMatch expr item names values = .error .syntax ∧ Interp.langUpdate expr item names values = .error .syntax := by
+  have hu : Interp.undefinedValue expr values = true := by
+    unfold Interp.undefinedValue
+    rw [List.any_eq_true]
+    exact ⟨p, hp, by simp [hv]⟩
+  simp [Interp.langMatch, Interp.langUpdate, hu]
+
+/-- non-vacuity: `v <> :m` uses `:m` -/
+example : [58, 109] ∈ Interp.valuePlaceholders [118, 32, 60, 62, 32, 58, 109] := by decide
+
+/-- refutation of the full statement (KF-C16-unsupplied-placeholder): a condition that uses `#n` is evaluated although the
+    request supplies no name for it — it is taken for an attribute literally named `#n`, which the item lacks, and the
+    conditional PutItem succeeds -/
+theorem unsupplied_name_accepted :
+    let c0 : Client := (createTable { sdk := .v2 } { table := [116], key := { hash := ([104], [83]) }, payPerRequest := true }).1
+    (match (putItem c0 [116] [([104], .s [97]), ([118], .s [50])] (some (Bytes.ofString "attribute_not_exists(#n)")) {}).2 with | .ok => true | _ => false) = true := by
+  decide +kernel
+
 end Minidyn.Props.C16
